@@ -81,7 +81,10 @@ def run(F, S, R, tier):
     def verifiers():
         pv = F.need(REL + "compact_block_verifier::PrefilledVerifier::verify")
         status_table(R, "cmp/prefilled/first", pv, [r"call:.*PrefilledTransaction::index$|call:.*index$"], [r"lit:0$"], {"<": "ERR", "=": "CONT", ">": "ERR"}, what="first prefilled index must be 0", min_sites=1, only_ops=("ne", "eq"))
-        status_table(R, "cmp/prefilled/range", pv, [r"call:.*index$"], [r"call:.*IndexTransactionVec::len$", r"call:.*ProposalShortIdVec::len$"], {"<": "CONT", "=": "ERR", ">": "ERR"}, what="last prefilled index must be < txs_len", arith=([], ["op:add"]))
+        if K.find_cmp(pv, [r"call:.*index$"], [r"call:.*IndexTransactionVec::len$", r"call:.*ProposalShortIdVec::len$"]) or not K.find_cmp(pv, [r"call:.*index$"], [r"call:.*::txs_len$"]):
+            status_table(R, "cmp/prefilled/range", pv, [r"call:.*index$"], [r"call:.*IndexTransactionVec::len$", r"call:.*ProposalShortIdVec::len$"], {"<": "CONT", "=": "ERR", ">": "ERR"}, what="last prefilled index must be < txs_len", arith=([], ["op:add"]))
+        else:       # the same quantity through the generated type's own helper
+            status_table(R, "cmp/prefilled/range", pv, [r"call:.*index$"], [r"call:.*::txs_len$"], {"<": "CONT", "=": "ERR", ">": "ERR"}, what="last prefilled index must be < txs_len()", arith=([], []))
         # order: a comparison whose two operands both come from PrefilledTransaction::index() (neither a literal nor a length)
         # must reject equality and exactly one strict side (idiom: pairwise loop; other idioms - windows(2).all(..), is_sorted_by(..) -
         # are not recognised and are reported as `no pairwise comparison`, which is a finding to review, never a silent pass)
